@@ -870,9 +870,11 @@ package core
 //@   assert[C01.dispatch_only_matching_rules] at "append(w.Children, child)": len(bss) > 0
 
 // ---- OutboundBreaker data-structure invariant (established by init, preserved by slide/Do/Reset) ----------
-//@ define breakerOK(b) = b.ticks > 0 && len(b.counts) == b.ticks && b.interval >= b.ticks && b.limit >= 1 && nanos(b.updated) <= clock()
+//@ define breakerShape(b) = b.ticks > 0 && len(b.counts) == b.ticks && b.interval >= b.ticks && b.limit >= 1
+// "updated" is the zero time or the instant of an earlier slide: never later than the clock (assumed at Do/Status entry)
+//@ define breakerOK(b) = breakerShape(b) && nanos(b.updated) <= clock()
 //@ func (*OutboundBreaker).init
-//@   ensures[C20+C13.breaker_init_establishes_invariant] result1 == nil ==> result0 == b && breakerOK(b)
+//@   ensures[C20+C13.breaker_init_establishes_invariant] result1 == nil ==> result0 == b && breakerShape(b)
 //@   ensures[C20.breaker_init_rejects_bad_limit] limit < 1 ==> result1 != nil
 //@ func (*OutboundBreaker).slide
 //@   requires[C20+C13.breaker_invariant_slide] breakerOK(b)
